@@ -474,8 +474,10 @@ class FileCache:
                         valid_entry = False
 
                     if not valid_entry:
-                        # remove the locally stored entry if not valid
-                        os.remove(filepath)
+                        # remove the locally stored entry (and its file) if not
+                        # valid, so that a failing re-download cannot leave a
+                        # stale entry behind.
+                        self._remove_item_from_cache(hashkey)
                     else:
                         valid_entry = True
                 else:
